@@ -93,7 +93,8 @@ func runListeners(r *vh.Run, rng *vh.RNG, name string, t *chainx.Tree) {
 // runListenerChurn: listeners come and go between submissions (cancel an EARLIER registration,
 // then register a new one — not last-in-first-out). Every listener must be told exactly the tips
 // of the changes that happened while it was registered; a cancelled one nothing more; a new one
-// must not displace another. Oracle only.
+// must not displace another (O). The set of listeners called at each tip change is compared with
+// the Lean registry model (T; listener 0 is the node's own bookkeeping listener).
 func runListenerChurn(r *vh.Run, rng *vh.RNG, name string, t *chainx.Tree) {
 	best := 0
 	for _, l := range t.Leaves() {
@@ -106,7 +107,8 @@ func runListenerChurn(r *vh.Run, rng *vh.RNG, name string, t *chainx.Tree) {
 		return
 	}
 	nd := t.Net.MustNode()
-	c := &vh.Case{Name: name, Tags: []string{"listeners-churn"}, Nontrivial: true, Key: name}
+	c := &vh.Case{Name: name, Model: "listeners reg", Tags: []string{"listeners-churn"}, Nontrivial: true}
+	c.Op("reg 0", "ok")
 	type lst struct {
 		id     int
 		got    []types.ChainIndex
@@ -115,10 +117,12 @@ func runListenerChurn(r *vh.Run, rng *vh.RNG, name string, t *chainx.Tree) {
 		live   bool
 	}
 	var all []*lst
+	var called []int
 	register := func() *lst {
-		l := &lst{id: len(all), live: true}
-		l.cancel = nd.CM.OnReorg(func(ci types.ChainIndex) { l.got = append(l.got, ci) })
+		l := &lst{id: len(all) + 1, live: true}
+		l.cancel = nd.CM.OnReorg(func(ci types.ChainIndex) { l.got = append(l.got, ci); called = append(called, l.id) })
 		all = append(all, l)
+		c.Op(fmt.Sprintf("reg %d", l.id), "ok")
 		return l
 	}
 	for i := 0; i < 2+rng.Intn(3); i++ {
@@ -130,7 +134,8 @@ func runListenerChurn(r *vh.Run, rng *vh.RNG, name string, t *chainx.Tree) {
 		if k+n > len(path) {
 			n = len(path) - k
 		}
-		before := nd.CM.Tip()
+		before, beforeN := nd.CM.Tip(), len(nd.Reorgs)
+		called = called[:0]
 		if res := c01.Submit(nd, t.Get(path[k:k+n])); res != "ok" {
 			c.Oracle("listener-scenario-submission-failed", "AddBlocks(%v) -> %s", path[k:k+n], res)
 		}
@@ -141,6 +146,16 @@ func runListenerChurn(r *vh.Run, rng *vh.RNG, name string, t *chainx.Tree) {
 					l.want = append(l.want, tip)
 				}
 			}
+			ids := append([]int(nil), called...)
+			if len(nd.Reorgs) > beforeN {
+				ids = append(ids, 0)
+			}
+			sort.Ints(ids)
+			out := "called"
+			for _, id := range ids {
+				out += fmt.Sprint(" ", id)
+			}
+			c.Op("tip", out)
 		}
 		// churn: cancel a live listener that is NOT the most recently registered one, then register
 		// a new one (sometimes two)
@@ -154,6 +169,7 @@ func runListenerChurn(r *vh.Run, rng *vh.RNG, name string, t *chainx.Tree) {
 			v := live[rng.Intn(len(live)-1)]
 			v.cancel()
 			v.live = false
+			c.Op(fmt.Sprintf("cancel %d", v.id), "ok")
 			register()
 			if rng.Chance(1, 3) {
 				register()
@@ -170,10 +186,9 @@ func runListenerChurn(r *vh.Run, rng *vh.RNG, name string, t *chainx.Tree) {
 	}
 	for _, l := range all {
 		if show(l.got) != show(l.want) {
-			c.Oracle("listener-churn-wrong-notifications", "listener %d (registered %d-th, cancelled=%v) received tips %s, the tips that changed while it was registered were %s", l.id, l.id, !l.live, show(l.got), show(l.want))
+			c.Oracle("listener-churn-wrong-notifications", "listener %d (cancelled=%v) received tips %s, the tips that changed while it was registered were %s", l.id, !l.live, show(l.got), show(l.want))
 		}
 	}
-	c.Op(fmt.Sprintf("listener-churn %d listeners %d churn steps", len(all), steps), "ok")
 	c.Info = map[string]any{"listeners": len(all), "churn_steps": steps}
 	r.Add(c)
 }
